@@ -224,6 +224,85 @@ fn check(ast: &Ast, vars: &[(&'static str, RV)], ci: usize, st: &mut Stats) {
     }
 }
 
+/// Assignment operators whose left operand is not a bare identifier: on a shared context a reached
+/// assignment fails with ContextNotMutable whatever its operands evaluated to; an operand that fails
+/// is reported first.
+fn odd_targets() -> Stats {
+    let mut st = Stats::new();
+    let lhs = ["1", "(x)", "x + 1", "(1, 2)", "true", "\"q\"", "r (1)", "()", "u", "1 / 0", "- x"];
+    let ops = ["=", "+=", "-=", "*=", "/=", "%=", "^=", "&&=", "||="];
+    let rhs = ["2", "x", "u", "1 / 0", "r (3)", "(y = 1)"];
+    let vars = [("x", RV::Int(1))];
+    for l in lhs {
+        for op in ops {
+            for r in rhs {
+                let src = format!("{} {} {}", l, op, r);
+                let tree = match build_operator_tree::<DefaultNumericTypes>(&src) {
+                    Ok(t) => t,
+                    Err(_) => {
+                        st.count("odd-targets/rejected-at-precompile");
+                        continue;
+                    },
+                };
+                // expectation from the operands alone, each evaluated on its own in immutable mode
+                let operand = |text: &str| -> Option<RErr> {
+                    let t = build_operator_tree::<DefaultNumericTypes>(text).ok()?;
+                    let ast = super::selftest::node_to_ast(&t)?;
+                    let mut rc = ref_context(&vars);
+                    match rc.eval(&ast, Mode::Immutable) {
+                        Ok(_) => None,
+                        Err(e) => Some(e),
+                    }
+                };
+                // the tree builder may not split the source at the operator we wrote (e.g. `x + 1 = 2`);
+                // only judge sources whose tree is that assignment applied to exactly these two operands
+                let shape_ok = {
+                    let nt = crate::refmodel::ast::node_to_nt(&tree);
+                    let want_l = build_operator_tree::<DefaultNumericTypes>(l).map(|t| crate::refmodel::ast::node_to_nt(&t));
+                    let want_r = build_operator_tree::<DefaultNumericTypes>(r).map(|t| crate::refmodel::ast::node_to_nt(&t));
+                    nt.label == op && nt.kids.len() == 2 && Ok(&nt.kids[0]) == want_l.as_ref() && Ok(&nt.kids[1]) == want_r.as_ref()
+                };
+                if !shape_ok {
+                    st.count("odd-targets/other-tree-shape");
+                    continue;
+                }
+                let log = Arc::new(Mutex::new(Vec::new()));
+                let c = real_context(&vars, &log);
+                let before = observe_vars(&c);
+                let real = match guarded(|| tree.eval_with_context(&c)) {
+                    Ok(r) => r,
+                    Err(p) => {
+                        st.violation(Violation {
+                            property: ID,
+                            kind: "panic".into(),
+                            input: json!({"source": src, "context": 1}),
+                            expected: "Ok or Err".into(),
+                            actual: format!("panic at {}: {}", p.location, p.message),
+                            test: String::new(),
+                        });
+                        continue;
+                    },
+                };
+                st.evaluations += 1;
+                st.count("odd-targets/checked");
+                let want: RErr = operand(l).or_else(|| operand(r)).unwrap_or(RErr::NotMutable);
+                let ok = matches!(&real, Err(e) if err_matches(&want, e)) && observe_vars(&c) == before;
+                if !ok {
+                    st.violation(Violation {
+                        property: ID,
+                        kind: "reached-assignment-not-rejected-as-immutable".into(),
+                        input: json!({"source": src, "context": 1}),
+                        expected: format!("Err({:?}) on a shared context (x = 1; functions r, s, fail), context unchanged", want),
+                        actual: format!("{} / variables {:?}", res_dbg(&real), observe_vars(&c)),
+                        test: test_wrap("c11_replay", &format!("    let mut c = HashMapContext::<DefaultNumericTypes>::new();\n    c.set_value(\"x\".into(), Value::Int(1)).unwrap();\n    c.set_function(\"r\".into(), Function::new(|a| Ok(a.clone()))).unwrap();\n    panic!(\"{{:?}}\", eval_with_context({:?}, &c));\n", src)),
+                    });
+                }
+            }
+        }
+    }
+    st
+}
+
 pub fn run(cfg: &Cfg) -> Report {
     let n = cfg.tier.pick(2, 3);
     let counts = progs::counts(3);
@@ -243,6 +322,7 @@ pub fn run(cfg: &Cfg) -> Report {
             st
         }));
     }
+    stats.merge(odd_targets());
     for src in ["r (1) + (x = 2)", "(1 / 0 , x = 2)", "x += u", "r (x) ; s (x + 1)"] {
         let log = Arc::new(Mutex::new(Vec::new()));
         let c = real_context(&[("x", RV::Int(1))], &log);
@@ -258,7 +338,7 @@ pub fn run(cfg: &Cfg) -> Report {
     Report {
         property: ID,
         level: "model_checking",
-        rule: format!("every program with <= {n} operator nodes of the C08 alphabet (assignments and op-assigns at every position, recording and failing calls, failing atoms) x 3 initial HashMapContext populations; per (program, context): eval_with_context on the tree and on the string (shared context), eval_with_context_mut on a clone, eval_with_context_mut on a harness context with the default set_value, and for the empty population EmptyContext and EmptyContextWithBuiltinFunctions; oracle: reference interpreter in immutable / mutable / no-storage mode, direct differential between the two forms for assignment-free programs, context observation before/after. States = (program, context) pairs, transitions = evaluations. Non-trivial = assignment-free programs (differential) and programs ending in ContextNotMutable; each pair is enumerated once"),
+        rule: format!("every program with <= {n} operator nodes of the C08 alphabet (assignments and op-assigns at every position, recording and failing calls, failing atoms) x 3 initial HashMapContext populations; per (program, context): eval_with_context on the tree and on the string (shared context), eval_with_context_mut on a clone, eval_with_context_mut on a harness context with the default set_value, and for the empty population EmptyContext and EmptyContextWithBuiltinFunctions; plus 11 x 9 x 6 sources `<lhs> <assignment operator> <rhs>` whose left operand is not a bare identifier (literal, group, sum, tuple, call, failing expression), evaluated on a shared context; oracle: reference interpreter in immutable / mutable / no-storage mode, direct differential between the two forms for assignment-free programs, context observation before/after. States = (program, context) pairs, transitions = evaluations. Non-trivial = assignment-free programs (differential) and programs ending in ContextNotMutable; each pair is enumerated once"),
         nontrivial_set: "counter:nontrivial-distinct",
         exhaustive: true,
         bound_completed: format!("programs of {n} operator nodes"),
